@@ -1624,12 +1624,27 @@ int ov_pcm_seek_page(OggVorbis_File *vf,ogg_int64_t pos){
          first PCM granule position fencepost. */
 
       if(got_page &&
-         begin == vf->dataoffsets[link] &&
-         ogg_page_serialno(&og)==vf->serialnos[link]){
+         begin == vf->dataoffsets[link]){
 
-        /* Yes, this is the beginning-of-stream case. We already have
-           our page, right at the beginning of PCM data.  Set state
-           and return. */
+        /* Yes, this is the beginning-of-stream case.  The page the
+           search looked at last need not be the first page of this
+           link's stream (it may belong to a multiplexed stream, or
+           follow a first page on which no packet ends), so fetch
+           that first page again.  Set state and return. */
+
+        result=_seek_helper(vf,begin);
+        if(result) goto seek_error;
+        do{
+          if(vf->offset>=vf->offsets[link+1]){
+            result=OV_EBADLINK;
+            goto seek_error;
+          }
+          result=_get_next_page(vf,&og,vf->offsets[link+1]-vf->offset);
+          if(result<0){
+            if(result!=OV_EREAD)result=OV_EBADLINK;
+            goto seek_error;
+          }
+        }while(ogg_page_serialno(&og)!=vf->serialnos[link]);
 
         vf->pcm_offset=total;
 
